@@ -82,7 +82,7 @@ func canonReq(b []byte) string {
 var c15Hung int32
 
 func checkC15(c *hx.Ctx) {
-	c.Rule("(1) sequences of 1-6 transactions (valid batches written by the real OperationHandler, malformed anchor strings, missing / corrupt batch files (not gzip, truncated body, damaged body, missing trailer, JSON document followed by further bytes), unknown namespace, unknown protocol version, duplicate-carrying transactions through a stub provider, hand-made batch files listing one DID twice, or whose core index references creates without naming a provisional index file, read by the real provider) delivered in 1-3 ledger notifications to the REAL Observer goroutine (race detector on) with ONE injected fault per run enumerated over every position (a third of the sequences name alternate sources - one down, one mirroring the local CAS - so that a local read failure must NOT cost the transaction): each CAS file of each transaction, the store Put of each transaction; oracle over the recorded store.Put calls: per processable transaction exactly one Put holding one operation per suffix (the first) stamped with the transaction's time, number, protocol version, canonical and equivalent references, nothing for a failed one, later transactions still processed, configured unpublished operations deleted; (2) DocumentHandler.ProcessOperation over sequences of valid and refused operations with an unpublished-store Put failure / writer Add failure at every call index: refused or failed operations leave no trace in the writer and in the unpublished store (also a store configured for creates only and keyed by DID suffix: a failed enqueue of an update does not remove the pending create), also with the REAL batch.Writer (accepting, then stopped) in front of the real in-memory queue; non-trivial = run with a fault or a failing transaction; distinct = distinct (sequence, fault)")
+	c.Rule("(1) sequences of 1-6 transactions (valid batches written by the real OperationHandler, malformed anchor strings, missing / corrupt batch files (not gzip, truncated body, damaged body, missing trailer, JSON document followed by further bytes), unknown namespace, unknown protocol version, duplicate-carrying transactions through a stub provider, hand-made batch files listing one DID twice or carrying one update proof too many, or whose core index references creates without naming a provisional index file, read by the real provider) delivered in 1-3 ledger notifications to the REAL Observer goroutine (race detector on) with ONE injected fault per run enumerated over every position (a third of the sequences name alternate sources - one down, one mirroring the local CAS - so that a local read failure must NOT cost the transaction): each CAS file of each transaction, the store Put of each transaction; oracle over the recorded store.Put calls: per processable transaction exactly one Put holding one operation per suffix (the first) stamped with the transaction's time, number, protocol version, canonical and equivalent references, nothing for a failed one, later transactions still processed, configured unpublished operations deleted; (2) DocumentHandler.ProcessOperation over sequences of valid and refused operations with an unpublished-store Put failure / writer Add failure at every call index: refused or failed operations leave no trace in the writer and in the unpublished store (also a store configured for creates only and keyed by DID suffix: a failed enqueue of an update does not remove the pending create), also with the REAL batch.Writer (accepting, then stopped) in front of the real in-memory queue; non-trivial = run with a fault or a failing transaction; distinct = distinct (sequence, fault)")
 	c.Set("race_detector_enabled", raceEnabled)
 	p := c13Proto(ref.SHA256)
 	p2 := c13Proto(ref.SHA256)
@@ -227,7 +227,12 @@ func checkC15(c *hx.Ctx) {
 					c.Inconclusive("unexpected file set shape")
 					return
 				}
-				if r.Bool() {
+				if pick3 := r.Intn(3); pick3 == 0 {
+					// a third shape of a malformed file set: one update proof more than the provisional index has update references
+					po := asMap(asMap(fs.Trees["prov-proof"])["operations"])
+					po["update"] = append(append([]interface{}{}, pp...), pp[0])
+					c.Count("txn_shape:surplus-update-proof")
+				} else if pick3 == 1 {
 					u[1], pp[1], dl[1] = ref.CopyTree(u[0]), pp[0], ref.CopyTree(dl[0])
 				} else {
 					// the other shape: a DID created in the core index file and updated in the provisional index file of the same
@@ -854,6 +859,7 @@ func checkC15(c *hx.Ctx) {
 	c.Floor("runs:store-put", 20)
 	c.Floor("txn_kind:dup", 10)
 	c.Floor("txn_kind:dup-in-files", 5)
+	c.Floor("txn_shape:surplus-update-proof", 3)
 	c.Floor("txn_kind:creates-without-provisional-index", 5)
 	c.Floor("txn_kind:malformed-core-index", 5)
 	c.Floor("txn_kind:valid", 50)
